@@ -311,6 +311,48 @@ def poly_test(t: ast.AST, env: Dict[str, Poly]) -> Optional[bool]:
     return None if c is None else bool(c)
 
 
+def _restructure(stmts: List[ast.stmt], in_loop: bool) -> List[ast.stmt]:
+    """`if T: A; continue` + rest (directly in a loop body)  ->  `if T: A else: rest`;
+    `if not X: A else: B`  ->  `if X: B else: A`.  Same paths, the shapes the rules read."""
+    out: List[ast.stmt] = []
+    for i, st in enumerate(stmts):
+        if isinstance(st, (ast.For, ast.While)):
+            st.body = _restructure(st.body, True)
+            st.orelse = _restructure(st.orelse, in_loop)
+        elif isinstance(st, ast.If):
+            if in_loop and st.body and isinstance(st.body[-1], ast.Continue) and not st.orelse and not any(isinstance(x, (ast.Continue, ast.Break)) for b in st.body[:-1] for x in ast.walk(b)):
+                rest = _restructure(stmts[i + 1 :], in_loop)
+                st.body = _restructure(st.body[:-1], False) or [ast.copy_location(ast.Pass(), st)]
+                st.orelse = rest
+                out.append(st)
+                return out
+            st.body = _restructure(st.body, False)
+            st.orelse = _restructure(st.orelse, False)
+            if st.orelse and isinstance(st.test, ast.UnaryOp) and isinstance(st.test.op, ast.Not) and not (len(st.orelse) == 1 and isinstance(st.orelse[0], ast.If)):
+                st.test = st.test.operand
+                st.body, st.orelse = st.orelse, st.body
+        elif isinstance(st, (ast.With, ast.Try)):
+            st.body = _restructure(st.body, in_loop)
+            if isinstance(st, ast.Try):
+                st.finalbody = _restructure(st.finalbody, in_loop)
+        elif isinstance(st, ast.FunctionDef):
+            st.body = _restructure(st.body, False)
+        elif isinstance(st, ast.Assign) and len(st.targets) == 1 and isinstance(st.targets[0], ast.Tuple) and isinstance(st.value, ast.Tuple) and len(st.targets[0].elts) == len(st.value.elts) and all(isinstance(t_, ast.Name) for t_ in st.targets[0].elts):
+            # a, b = x, y  ->  a = x; b = y   when no right-hand side reads a target (no swap)
+            tn = {t_.id for t_ in st.targets[0].elts}
+            if not any(isinstance(n_, ast.Name) and n_.id in tn for v_ in st.value.elts for n_ in ast.walk(v_)):
+                for t_, v_ in zip(st.targets[0].elts, st.value.elts):
+                    out.append(ast.copy_location(ast.Assign(targets=[t_], value=v_), st))
+                continue
+        out.append(st)
+    return out
+
+
+def structure_module(tree: ast.Module) -> ast.Module:
+    tree.body = _restructure(tree.body, False)
+    return ast.fix_missing_locations(tree)
+
+
 class DecoderFacts:
     def __init__(self, ctx: Ctx):
         self.ctx = ctx
@@ -322,11 +364,31 @@ class DecoderFacts:
             m0 = py.mod(rel)
             # the rules read a flattened copy (small helpers inlined, module-level tables re-stated in the function)
             m = copy.copy(m0)
-            m.tree = normalise_module(m0.tree)
+            m.tree = structure_module(normalise_module(m0.tree))
             m.functions = {n.name: n for n in m.tree.body if isinstance(n, ast.FunctionDef)}
             m.assigns = dict(m0.assigns)
             self.mods[name] = m
         ctx.units["decoders"] = len(self.mods)
+
+    def mod_ints(self, dec: str) -> Dict[str, int]:
+        """Module-level integer constants, derived ones included (`BYTES = COLS // 2`), bound exactly once."""
+        m = self.mods[dec]
+        cnt: Dict[str, int] = {}
+        for st in m.tree.body:
+            for t_ in (st.targets if isinstance(st, ast.Assign) else []):
+                for n_ in ast.walk(t_):
+                    if isinstance(n_, ast.Name):
+                        cnt[n_.id] = cnt.get(n_.id, 0) + 1
+        out: Dict[str, int] = {}
+        for st in m.tree.body:
+            if isinstance(st, ast.Assign) and len(st.targets) == 1 and isinstance(st.targets[0], ast.Name) and cnt.get(st.targets[0].id) == 1:
+                try:
+                    v = int_eval(st.value, out)
+                except IntEvalError:
+                    continue
+                if isinstance(v, int) and not isinstance(v, bool):
+                    out[st.targets[0].id] = v
+        return out
 
     def fn(self, dec: str, name: str) -> ast.FunctionDef:
         m = self.mods[dec]
